@@ -231,6 +231,75 @@ func implValueMap(raw json.RawMessage) (any, error) {
 	return map[string]any{"snap": rg.SnapOf(r), "has": has}, nil
 }
 
+
+// ---------- c12.labels ----------
+
+// NewLabelRequirements on a label map (node labels, a pod's nodeSelector): an alias key and its canonical key may both be
+// present; they are one requirement (the intersection), whatever the map's iteration order.
+type LabelKV struct {
+	K string `json:"k"`
+	V string `json:"v"`
+}
+
+type LabelsIn struct {
+	Labels []LabelKV `json:"labels"` // distinct raw keys
+	Probes []string  `json:"probes"`
+}
+
+var labelKeys = []string{"team", "topology.kubernetes.io/zone", "failure-domain.beta.kubernetes.io/zone", "topology.kubernetes.io/region", "failure-domain.beta.kubernetes.io/region",
+	"kubernetes.io/arch", "beta.kubernetes.io/arch", "kubernetes.io/os", "beta.kubernetes.io/os", "node.kubernetes.io/instance-type", "beta.kubernetes.io/instance-type"}
+var labelVals = []string{"a", "b", "amd64", "linux"}
+
+func genLabels(r *rand.Rand, t core.Tier) any {
+	n := 1 + r.IntN(5)
+	perm := r.Perm(len(labelKeys))
+	in := LabelsIn{Probes: append([]string{"zz"}, labelVals...)}
+	for i := 0; i < n; i++ {
+		in.Labels = append(in.Labels, LabelKV{K: labelKeys[perm[i]], V: labelVals[r.IntN(len(labelVals))]})
+	}
+	// make an alias / canonical pair likely
+	if r.Float64() < 0.6 {
+		pairs := [][2]string{{"topology.kubernetes.io/zone", "failure-domain.beta.kubernetes.io/zone"}, {"kubernetes.io/arch", "beta.kubernetes.io/arch"}, {"node.kubernetes.io/instance-type", "beta.kubernetes.io/instance-type"}}
+		p := pairs[r.IntN(len(pairs))]
+		seen := map[string]bool{}
+		for _, kv := range in.Labels {
+			seen[kv.K] = true
+		}
+		for _, k := range p {
+			if !seen[k] {
+				in.Labels = append(in.Labels, LabelKV{K: k, V: labelVals[r.IntN(2)]})
+			}
+		}
+	}
+	return in
+}
+
+func implLabels(raw json.RawMessage) (any, error) {
+	var in LabelsIn
+	if err := json.Unmarshal(raw, &in); err != nil {
+		return nil, err
+	}
+	m := map[string]string{}
+	for _, kv := range in.Labels {
+		m[kv.K] = kv.V
+	}
+	R := scheduling.NewLabelRequirements(m)
+	keys := []string{}
+	for k := range R {
+		keys = append(keys, k)
+	}
+	sort.Strings(keys)
+	out := []map[string]any{}
+	for _, k := range keys {
+		has := make([]bool, len(in.Probes))
+		for i, p := range in.Probes {
+			has[i] = R.Get(k).Has(p)
+		}
+		out = append(out, map[string]any{"key": k, "snap": rg.SnapOf(R.Get(k)), "has": has})
+	}
+	return map[string]any{"keys": out}, nil
+}
+
 // ---------- c12.atoi ----------
 
 type AtoiIn struct {
@@ -501,6 +570,27 @@ func Ops() []*core.Op {
 				return l
 			},
 			Signature: func(raw json.RawMessage, impl any) string { return "valuemap" },
+		},
+		{
+			Name: "c12.labels",
+			Doc:  "scheduling.NewLabelRequirements on label maps that may hold an alias key and its canonical key: one requirement per normalized key = the intersection of all entries, independent of map order",
+			N:    func(t core.Tier) int { return map[core.Tier]int{core.Quick: 1500, core.Thorough: 30000}[t] },
+			Gen:  genLabels,
+			Impl: implLabels,
+			Rule: "non-trivial = two raw keys normalize to the same key",
+			Nontrivial: func(raw json.RawMessage, _ any) bool {
+				var in LabelsIn
+				json.Unmarshal(raw, &in)
+				seen := map[string]bool{}
+				for _, kv := range in.Labels {
+					if seen[normKey(kv.K)] {
+						return true
+					}
+					seen[normKey(kv.K)] = true
+				}
+				return false
+			},
+			Signature: func(raw json.RawMessage, impl any) string { return "labels" },
 		},
 		{
 			Name: "c12.atoi",
